@@ -5,6 +5,7 @@ M1 with operand frames: the longest list/dict reachable from every node result (
 attribution - per eval only the earliest over-long container is classified, by the node that produced it.
 """
 import random
+import zlib
 from decimal import Decimal
 
 from lib import heap, monitors
@@ -162,8 +163,10 @@ def setup(ctx):
     ctx.M1 = M1 = monitors.NodeMonitor()
     M1.on_enter, M1.on_exit, M1.on_raise = W.enter, W.exit, W.raised
     F = functions.FUNCTIONS
+    ctx.F, ctx.rawF = F, dict(F)
     for n in ADDERS:
         F[n] = W.adder(n, F[n])
+    ctx.wrapF = dict(F)
 
 
 SIZES = [0, 1, 9998, 9999, 10000, 10001]
@@ -287,13 +290,25 @@ def run_case(case, ctx):
     names = names_for(src, size, intkeys)
     W.B = max(CAP, len(src), max([heap.max_len(v) for v in names.values()] + [0]), max([len(v) for v in names.values() if isinstance(v, str)] + [0]))
     # statements run one by one on the persistent names, so that a failing statement does not hide the following ones
+    # one program in five runs against the function table as the repository built it (wrappers out for these calls; the node monitor still judges the
+    # size of every node value and of everything reachable from names afterwards): code that recognises its own builtins by identity takes other paths under wrappers
+    unwrapped = zlib.crc32(src.encode('utf-8', 'replace')) % 5 == 0
+    if unwrapped:
+        ctx.count('programs_run_against_the_unwrapped_function_table(node monitor only)')
     for line in split_statements(src):
         W.stack = []
+        if unwrapped:
+            ctx.F.clear()
+            ctx.F.update(ctx.rawF)
         try:
             ctx.P.eval(line, names, None, 10 ** 6)
             ctx.count('statements_completed')
         except Exception as e:
             ctx.cov('exception_classes', type(e).__name__)
+        finally:
+            if unwrapped:
+                ctx.F.clear()
+                ctx.F.update(ctx.wrapF)
         ctx.count('statements_run')
         if W.first is not None:
             break
